@@ -312,7 +312,7 @@ def explore(args):
 def run(ctx):
     rep = Report()
     shards = []
-    sizes = [(2, 2), (3, 2), (3, 3)] + ([(4, 3)] if ctx.thorough else [])
+    sizes = [(2, 2), (3, 2), (3, 3), (1, 2), (2, 5)] + ([(4, 3), (5, 1)] if ctx.thorough else [])
     for (h, w) in sizes:
         ninit = len(initial_terms(h, w))
         for keep in (False, True):
